@@ -327,6 +327,31 @@ class SourceModel:
         self.positionalized = positionalize_calls(self)
         from .inline import absorb_helpers
         self.absorbed = absorb_helpers(self)
+        from .astutil import register_simple_helpers
+        register_simple_helpers(
+            (n.name, n) for m in self.modules.values() if ".node." in m.name + "."
+            for n in ast.walk(m.tree)
+            if isinstance(n, ast.FunctionDef))
+        # ... and put what a simple helper returns in place of every call to it, so that a test,
+        # a key or an argument spelled through such a helper reads like the inline spelling
+        from .astutil import expand_simple_call
+
+        class _Exp(ast.NodeTransformer):
+            n = 0
+
+            def visit_Call(self, node):
+                node = self.generic_visit(node)
+                x = expand_simple_call(node)
+                if x is None:
+                    return node
+                _Exp.n += 1
+                for y in ast.walk(x):
+                    ast.copy_location(y, node)
+                return x
+        for m in self.modules.values():
+            if ".node." in m.name + ".":
+                _Exp().visit(m.tree)
+        self.expanded_helper_calls = _Exp.n
 
     # -- access helpers -------------------------------------------------------
     def module(self, name: str) -> Module:
